@@ -102,9 +102,9 @@ impl Prop for C03 {
         "C03"
     }
     fn rule(&self) -> String {
-        "Generated: (dividend, divisor, thread-default rounding mode), divisor/dividend a Decimal or an integer of any of the 9 types; class-based operands plus derived pairs: \
+        "Generated: (dividend, divisor, thread-default rounding mode), divisor/dividend a Decimal or an integer of any of the 9 types; class-based operands, related pairs (same value / same coefficient at another scale), machine-word boundary and unit-like operands, wide-division-path pairs (divisors that make the quotient-digit estimate overshoot), plus derived pairs: \
          exact ties at the 19th digit (and +-1), exact quotients with 0..18 significant fractional digits on the narrow and the wide path, rounded quotient*10^18 at +-(2^127-1)..+-(2^127+2) (incl. floor quotient = MAX with non-zero remainder), divisor one / zero dividend / zero divisor in all representations. \
-         Each case runs /, /= and checked_div in all operand forms against the exact rational quotient rounded by the mode definitions and normalised. \
+         Each case runs /, /= and checked_div in all operand forms against the exact rational quotient rounded by the mode definitions and normalised; follow-up cases repeat an operand of the previous case on the same thread. \
          Non-trivial: non-zero discarded part at 18 digits, or wide path, or tie, or normalisation removed a digit. Distinct: hash of (x, y, mode)."
             .into()
     }
